@@ -347,10 +347,10 @@ def run(ctx):
         from mc.core import grid
         ncases = []
         for m in lc.FIXED_EXPLICIT[:3] + ["RK4Solver"] + lc.SPLITTING[:2] + ["RK45CKSolver", "DOPRI45", "ImplicitMidpoint", "RadauIIA5", "RICH:RK4Solver:3"]:
-            for (t0, t1, t2) in ((0.0, 1.0, 2.0), (0.0, -1.0, -2.0), (-0.3, 0.7, 1.3), (0.0, 1.0, 0.5)):
+            for (t0, t1, t2) in ((0.0, 1.0, 2.0), (0.0, -1.0, -2.0), (-0.3, 0.7, 1.3), (0.0, 1.0, 0.5), (0.0, 3.0, 3.5), (3.0, 0.0, -0.5), (1000.0, 1003.0, 1003.5), (-1000.0, -1003.0, -1002.5)):
                 for dt0 in (0.1, 0.3, 0.25):
                     for red in (["plain"], ["target"], ["plain", "target", "recorded"]):
-                        for dn in (("float64",) if ctx.quick else ("float64", "longdouble", "float32")):
+                        for dn in (("float64", "float32") if ctx.quick else ("float64", "longdouble", "float32")):
                             for dense in ((False,) if ctx.quick else (False, True)):
                                 ncases.append(dict(noop=True, method=m, dtype=dn, dense=dense, t0=t0, t1=t1, t2=t2, dt0=dt0, redundant=red))
         grid.pmap(noop_case, ncases, ctx, section="noop", horizon=600)
